@@ -15,6 +15,8 @@ use crate::structures::paging::{FrameAllocator, FrameDeallocator};
 use crate::verif_oracle::*;
 
 pub mod cases;
+pub mod cases_cleanup;
+pub mod cleanup;
 pub mod mapped;
 
 pub const N: usize = 8;
